@@ -414,6 +414,29 @@ def one_case(run, seed: int, i: int, engine: str = 'copy') -> None:
         muts += check_copy(run, rng, e, lambda e=e: e.copy(), 'Entity.copy', engine, case)
     for e in list(vmf.entities)[:3]:
         muts += check_copy(run, rng, e, lambda e=e: e.copy(vmf_file=other), 'Entity.copy(other map)', engine, case)
+    # copies of node entities: the copy has a node ID of its own, and taking that key away from the copy (or re-numbering
+    # it) leaves the original's ID reserved - a node created afterwards that asks for it gets another one
+    from srctools.vmf import Entity as _Ent
+    node_src = [x for x in ents if 'nodeid' in x][:2]
+    if not node_src and i % 3 == 0:
+        node_src = [vmf.create_ent('info_node', nodeid=str(rng.randrange(1, 9)))]
+    for e in node_src:
+        want_id = e['nodeid']
+        cp = e.copy() if i % 2 else e.copy(vmf_file=vmf)
+        run.count('node_entity_copies')
+        if cp['nodeid'] == want_id:
+            run.violation(f'the copy of a node entity carries the node ID {want_id!r} of its source (same map)', case=case, engine=engine,
+                          key='copy-shares-node-id')
+            continue
+        if rng.random() < 0.5:
+            del cp['nodeid']
+        else:
+            cp['nodeid'] = '77'
+        later = vmf.create_ent('info_node', nodeid=want_id)
+        if later['nodeid'] == e['nodeid'] or e['nodeid'] != want_id:
+            run.violation(f'after the copy gave up its node ID, a new node asking for {want_id!r} got {later["nodeid"]!r} while the source still holds {e["nodeid"]!r}',
+                          case=case, engine=engine, key='copy-shares-node-id')
+        later.remove()
     # the copy options: an ID mapping to fill in, visibility state left behind, and the map every part of the copy belongs to
     for e in [x for x in ents if x.solids][:2] + ents[:1]:
         mapping: Dict[int, int] = {}
@@ -502,7 +525,7 @@ def main(run, shard=(0, 1)) -> None:
             one_case(run, run.seed, i)
     probe.report(run)
     probe.check_reached(run)
-    run.require('copies', 'mutations_applied', 'operator_checks', 'displacement_copies', 'math_operator_applications', 'copy_option_checks')
+    run.require('copies', 'mutations_applied', 'operator_checks', 'displacement_copies', 'math_operator_applications', 'copy_option_checks', 'node_entity_copies')
 
 
 def replay(run, data) -> None:
